@@ -330,6 +330,14 @@ F0(id, t, n) == [id |-> id, req |-> "default", t |-> t, name |-> n, dflt |-> [k 
 Brk(q, how) == p' = q /\ broken' = how
 Break ==
   \/ \E s \in Idx(p.structs) : Brk([p EXCEPT !.structs[s].fields = Append(@, F0(15, R("Missing"), "dangling"))], "dangling-type")
+  \* an undeclared type inside a container: element of a list / set, key or value of a map, nested one level deeper, and as the
+  \* target of a typedef
+  \/ \E s \in Idx(p.structs) : \E w \in {<<L(R("Missing")), "dangling-list-element">>, <<S(R("Missing")), "dangling-set-element">>,
+                                           <<M(R("Missing"), B("string")), "dangling-map-key">>, <<M(B("string"), R("Missing")), "dangling-map-value">>,
+                                           <<L(M(R("Missing"), B("i32"))), "dangling-nested-map-key">>} :
+        Brk([p EXCEPT !.structs[s].fields = Append(@, F0(15, w[1], "dangling"))], w[2])
+  \/ Brk([p EXCEPT !.typedefs = Append(@, [name |-> "DanglingT", t |-> M(R("Missing"), B("string"))])], "dangling-typedef-map-key")
+  \/ \E s \in Idx(p.services) : Brk([p EXCEPT !.services[s].methods = Append(@, [name |-> "dangl", oneway |-> FALSE, ret |-> <<M(R("Missing"), B("i32"))>>, args |-> <<>>, throws |-> <<>>, anns |-> 0])], "dangling-return-map-key")
   \/ \E s \in Idx(p.structs) : p.structs[s].fields # <<>> /\
         Brk([p EXCEPT !.structs[s].fields = Append(@, F0(p.structs[s].fields[1].id, B("i32"), "dupid"))], "duplicate-field-id")
   \/ \E s \in Idx(p.structs) : p.structs[s].fields # <<>> /\
